@@ -19,7 +19,7 @@ namespace Psutil.C13
 
 inductive Exc
   | valueError | indexError | attributeError
-  | zombieProcess | noSuchProcess | accessDenied | fileNotFound
+  | zombieProcess | noSuchProcess | accessDenied | fileNotFound | keyError
   deriving DecidableEq, Repr
 
 abbrev Res := Except Exc
